@@ -25,7 +25,11 @@ func vValidBlk(tag string) vBlk {
 	if c.Prefix().MhType == 0 {
 		return vBlk{c, vIdentityPayload(c)}
 	}
-	data := vBytes(tag+".data", vChoose(tag+".len", 2))
+	maxLen := 1
+	if vTier() == 1 {
+		maxLen = 2
+	}
+	data := vBytes(tag+".data", vChoose(tag+".len", maxLen+1))
 	vAssume(vValidBlock(c, data))
 	return vBlk{c, data}
 }
@@ -196,6 +200,15 @@ func vPayloadOf(file []byte) []byte {
 func VerifH_C19_IndexCommand() {
 	blocks := []vBlk{vValidBlk("b1"), vValidBlk("b2")}
 	vAssume(blocks[0].c.Prefix().MhType != 0)
+	if vChoose("firstSectionAtVarintBoundary", 2) == 1 {
+		// CID 6 bytes + 121/122 data bytes = a section of 127/128 bytes: its length prefix and the
+		// length prefix of its data alone differ in size
+		c := vCidT("big")
+		vAssume(c.Prefix().MhType != 0)
+		data := vBytes("big.data", 121+vChoose("big.len", 2))
+		vAssume(vValidBlock(c, data))
+		blocks[0] = vBlk{c, data}
+	}
 	vAssume(!vBytesEq(blocks[0].c.Hash(), blocks[1].c.Hash()))
 	in := vInputCar(blocks)
 	inPath, outPath := vFSPath("in.car"), vFSPath("out.car")
